@@ -145,7 +145,8 @@ Notation build' := (build v js t).
 Notation bmid' := (bmid v js t).
 
 (* the state between two values inside a container: the next token lies inside the container *)
-Lemma bmid_inside rec cur ds A ts0 K :
+Lemma bmid_inside rec cur d0 fs0 A ts0 K :
+  let ds := DS d0 fs0 in
   tok_at t cur = Some K -> tend K <> 0%Z -> (tend K <= tend A)%Z ->
   bmid' rec cur ds (A :: ts0) =
   match bkey v js t A K cur ds with
@@ -159,9 +160,9 @@ Lemma bmid_inside rec cur ds A ts0 K :
   | OutOfFuel => OutOfFuel
   end.
 Proof.
-  intros E Z0 Le. unfold bmid. rewrite E.
+  intros ds E Z0 Le. unfold bmid. rewrite E.
   destruct (Z.eqb_spec (tend K) 0); [contradiction|]. cbn [orb pop_loop].
-  destruct (Z.ltb_spec (tend A) (tend K)); [lia|]. reflexivity.
+  destruct (Z.ltb_spec (tend A) (tend K)); [lia|]. subst ds. cbn [ds_is_empty]. rewrite andb_false_r. reflexivity.
 Qed.
 
 (* a finished container is popped when the next token lies behind it, or at the end *)
@@ -217,7 +218,7 @@ Proof.
                     length (json_elems (to_json v (S ind)) false r))%nat).
     { rewrite !app_length, to_json_lead_core, app_length. lia. }
     rewrite Lens in Le.
-    rewrite (bmid_inside _ i _ A ts0 K EKt) by lia.
+    rewrite (bmid_inside _ i _ _ A ts0 K EKt) by lia.
     unfold bkey. rewrite TA. change (T_ARRAY =? T_OBJECT) with false. cbn [andb].
     change (T_ARRAY =? T_ARRAY) with true. cbn [ds_push_elem].
     rewrite <- Nat.add_assoc.
@@ -301,7 +302,7 @@ Proof.
                     length (json_entries v (to_json v (S ind)) ind longest false r))%nat).
     { repeat (rewrite app_length || cbn [length]). rewrite to_json_lead_core, app_length. lia. }
     rewrite Lens in Le.
-    rewrite (bmid_inside _ i _ A ts0 _ EKt) by (cbn [tend tk]; lia).
+    rewrite (bmid_inside _ i _ _ A ts0 _ EKt) by (cbn [tend tk]; lia).
     (* the key *)
     unfold bkey. rewrite TA. change (T_OBJECT =? T_OBJECT) with true.
     change (is_keyish (tk T_STRING ks (ks + length esc))) with true. cbn [andb tstart tend tk].
@@ -357,7 +358,8 @@ Proof.
     + rewrite <- app_assoc. exact Hs.
 Qed.
 
-Lemma build_S f i ds ts :
+Lemma build_S f i d0 fs0 ts :
+  let ds := DS d0 fs0 in
   build' (S f) i ds ts =
   match tok_at t i with
   | None => Oob 1
@@ -368,7 +370,7 @@ Lemma build_S f i ds ts :
                 | OutOfFuel => OutOfFuel
                 end
   end.
-Proof. reflexivity. Qed.
+Proof. cbn [build ds_is_empty]. now rewrite andb_false_r. Qed.
 
 Lemma bswitch_string s e fs ts0 i :
   bswitch v js (tk T_STRING s e) i (DS empty_data fs) ts0 =
